@@ -49,6 +49,12 @@ def configs(tier):
             if sampler == "smc" or tier == "thorough":
                 out.append({"N": 3, "opts": dict(o), "sampler": sampler, "menu": ["flat", "mild", "peaked"],
                             "max_decisions": 3, "max_resamplings": 3, "bound": 2 if tier == "quick" else 3})
+    # non-initial state: the same sampler object has already completed another run
+    for sampler in ("smc", "emcee_smc"):
+        out.append({"N": 2, "opts": {"adaptive": False, "n_steps": 2}, "sampler": sampler, "menu": ["flat", "mild", "peaked"],
+                    "max_decisions": 2, "max_resamplings": 2, "bound": None, "prior_call": {"adaptive": False, "n_steps": 2}})
+        out.append({"N": 3, "opts": {"adaptive": True, "target_efficiency": 0.9}, "sampler": sampler, "menu": ["flat", "mild", "peaked"],
+                    "max_decisions": 3, "max_resamplings": 3, "bound": 2, "prior_call": {"adaptive": True, "target_efficiency": 0.9}})
     return out
 
 
